@@ -66,13 +66,19 @@ theorem decode_frame (x y b2 fn a b c d : Nat) (text : Bytes) (hL : text.length 
     | some item =>
       (mkHsmsMsg [] ((b2 % 128 : Nat) : Int) ((fn : Nat) : Int) ((b2 / 128 : Nat) : Int) dirBoth item
         ((beDec [x, y] : Nat) : Int) [a, b, c, d]).map HMsg.data := by
+  have hfo : frameOk (beEnc 4 (text.length + 10) ++ (x :: y :: b2 :: fn :: 0 :: 0 :: a :: b :: c :: d :: text)) = true := by
+    unfold frameOk
+    simp only [List.take_left' (beEnc_length 4 _), List.drop_left' (beEnc_length 4 _), beDec_beEnc 4 _ hL]
+    simp [beEnc4]
+  have hst : (beEnc 4 (text.length + 10) ++ (x :: y :: b2 :: fn :: 0 :: 0 :: a :: b :: c :: d :: text)).getD 9 0 = 0 := by
+    simp [beEnc4]
   unfold decode
-  have h1 : ¬ ((beEnc 4 (text.length + 10) ++ (x :: y :: b2 :: fn :: 0 :: 0 :: a :: b :: c :: d :: text)).length < 14) := by
-    simp [beEnc_length]; omega
-  simp only [h1, if_false, List.take_left' (beEnc_length 4 _), List.drop_left' (beEnc_length 4 _), beDec_beEnc 4 _ hL]
-  have h2 : ((x :: y :: b2 :: fn :: 0 :: 0 :: a :: b :: c :: d :: text).length != text.length + 10) = false := by
-    simp
-  simp only [h2, Bool.false_eq_true, if_false]
+  simp only [hfo, Bool.not_true, Bool.false_eq_true, if_false, hst, beq_self_eq_true, if_true]
+  unfold decodeData
+  simp only [List.take_left' (beEnc_length 4 _), List.drop_left' (beEnc_length 4 _), beDec_beEnc 4 _ hL]
+  have hd14 : (beEnc 4 (text.length + 10) ++ (x :: y :: b2 :: fn :: 0 :: 0 :: a :: b :: c :: d :: text)).drop 14 = text := by
+    simp [beEnc4]
+  rw [hd14]
   simp only [List.take, List.drop, List.getD_cons_succ, List.getD_cons_zero]
   rfl
 
